@@ -6,7 +6,9 @@ require github.com/imoore76/ldlm v0.0.0
 
 require (
 	github.com/deneonet/benc v1.1.8 // indirect
+	github.com/google/uuid v1.6.0 // indirect
 	golang.org/x/exp v0.0.0-20241204233417-43b7b7cde48d // indirect
+	golang.org/x/sync v0.19.0 // indirect
 )
 
 replace github.com/imoore76/ldlm => /repo
